@@ -482,15 +482,9 @@ impl Xot {
 
     /// Check whether a prefix is defined in node or its ancestors.
     pub fn is_prefix_defined(&self, node: Node, prefix: PrefixId) -> bool {
-        for ancestor in self.ancestors(node) {
-            if self.namespaces(ancestor).contains_key(prefix) {
-                return true;
-            }
-        }
-        if self.base_prefixes().contains_key(&prefix) {
-            return true;
-        }
-        false
+        // the nearest declaration decides: `xmlns=""` takes the default
+        // namespace away again
+        self.namespace_for_prefix(node, prefix).is_some()
     }
 
     /// Find prefixes we inherit from ancestors and aren't defined locally
